@@ -4,16 +4,17 @@
    left in the result, or None when the call raised. *)
 From JV Require Import Lib.Base Lib.C04Base Model.C04Sources Model.C04Sub Spec.C04Spec Model.C04Wf.
 
-(* k_sub = Some (NAME, the subcommand's declarations, its environment variables, the items after the token):
+(* k_sub = Some (NAME, the subcommand's declarations, its environment variables, the items after the token,
+   the value of PREFIX_SUBCOMMAND if set):
    the call is parse_args(items of k_call ++ [NAME] ++ those items); observed are the parent's keys, then
    the subcommand's keys NAME.key. *)
 Record case := { k_call : call;
-                 k_sub : option (name * parser * list (tpath * val) * list arg);
+                 k_sub : option (name * parser * list (tpath * val) * list arg * option name);
                  k_obs : option (list val * bool) }.
 
-Definition scall_of (c : call) (s : name * parser * list (tpath * val) * list arg) : scall :=
-  let '(nm, ps, env, argv) := s in
-  {| s_parent := c; s_name := nm; s_sub := ps; s_subenv := env; s_subargv := argv |}.
+Definition scall_of (c : call) (s : name * parser * list (tpath * val) * list arg * option name) : scall :=
+  let '(nm, ps, env, argv, envsub) := s in
+  {| s_parent := c; s_name := nm; s_sub := ps; s_subenv := env; s_envsub := envsub; s_subargv := argv |}.
 
 Definition agree_model_sub (fx : fixes) (sc : scall) (obs : option (list val * bool)) : bool :=
   let p := all_decls sc in
@@ -56,11 +57,11 @@ Definition judge1_fx (fx : fixes) (c : case) : verdict :=
   | Some s =>
       let sc := scall_of (k_call c) s in
       let m := agree_model_sub fx sc (k_obs c) in
-      let k := scall_class_fx (fx_append fx) (fx_section fx) sc in
+      let k := scall_class_fx (fx_append fx) (fx_section fx) (fx_envsub fx) sc in
       (* a finding class of the subcommand level only counts when the faithful model reproduces the
          observation; any other failure on such an input is class 9 (never a listed finding) *)
       {| v_model := m;
-         v_class := if (N.leb 3 k && N.leb k 5 && negb m)%bool then 9%N else k;
+         v_class := if (N.leb 3 k && N.leb k 6 && negb m)%bool then 9%N else k;
          v_spec := agree_spec_sub sc (k_obs c) |}
   end.
 
@@ -68,6 +69,8 @@ Definition judge1 : case -> verdict := judge1_fx nofix.
 Definition judge (cs : list case) := judge_all judge1 cs.
 
 (* the judges for a tree with the proposed repairs applied (tie/props/c04.py JUDGE) *)
-Definition judge_fixed_append (cs : list case) := judge_all (judge1_fx {| fx_append := true; fx_section := false |}) cs.
-Definition judge_fixed_section (cs : list case) := judge_all (judge1_fx {| fx_append := false; fx_section := true |}) cs.
-Definition judge_fixed (cs : list case) := judge_all (judge1_fx {| fx_append := true; fx_section := true |}) cs.
+Definition judge_fixed_append (cs : list case) := judge_all (judge1_fx {| fx_append := true; fx_section := false; fx_envsub := false |}) cs.
+Definition judge_fixed_section (cs : list case) := judge_all (judge1_fx {| fx_append := false; fx_section := true; fx_envsub := false |}) cs.
+Definition judge_fixed (cs : list case) := judge_all (judge1_fx {| fx_append := true; fx_section := true; fx_envsub := false |}) cs.
+Definition judge_fixed_envsub (cs : list case) := judge_all (judge1_fx {| fx_append := false; fx_section := false; fx_envsub := true |}) cs.
+Definition judge_fixed_section_envsub (cs : list case) := judge_all (judge1_fx {| fx_append := false; fx_section := true; fx_envsub := true |}) cs.
